@@ -28,6 +28,86 @@ CHECKS = {
         "a library abort or fatal signal is recorded, and on an ASan+UBSan build with fiber annotations; any abort or sanitizer report is a violation.",
    note="Exploration under instrumentation guided by the specifications' generators; not a proof of memory safety. UBSan null/alignment checks are off by design.",
    technique="spec-generated valid behaviours replayed under ASan/UBSan and release asserts"),
+ "C04": dict(level="model_checking", design="DESIGN.md §4 C04",
+   text="The property is a monitor in spec/KMon.tla, a total TLA+ step function over the kernel event vocabulary: waits return at the right time for exactly one cause, no stale wake-ups, armed timers fire, nobody stays suspended after its awaited thing happened. "
+        "TLC folds the monitor over traces recorded from the real library by harness/kernel_replay running seeded programs of the relevant "
+        "profiles (processes with scripts over hold/timers/waits/interrupt/stop/exit/restart/resources/pools/buffers/queues/conditions/recording, "
+        "same-instant ties by construction: integer durations 0..3, priorities 0..2) and, where spec/Kernel.tla covers the calls, over TLC-exported programs.",
+   note="Trusted: TLC, hooks H1-H3 and the harness's logging. Programs are random beyond the bounds TLC explores exhaustively; a rule fires only for events "
+        "impossible in any behaviour satisfying the property, so ties and unspecified orders are never judged.",
+   technique="TLA+ monitor (step function) folded by TLC over recorded kernel traces; TLC model checking of the kernel model"),
+ "C05": dict(level="model_checking", design="DESIGN.md §4 C05",
+   text="The property is a monitor in spec/KMon.tla, a total TLA+ step function over the kernel event vocabulary: mutual exclusion of a resource and agreement of the holder queries with the acquire/release/preempt/end history. "
+        "TLC folds the monitor over traces recorded from the real library by harness/kernel_replay running seeded programs of the relevant "
+        "profiles (processes with scripts over hold/timers/waits/interrupt/stop/exit/restart/resources/pools/buffers/queues/conditions/recording, "
+        "same-instant ties by construction: integer durations 0..3, priorities 0..2) and, where spec/Kernel.tla covers the calls, over TLC-exported programs.",
+   note="Trusted: TLC, hooks H1-H3 and the harness's logging. Programs are random beyond the bounds TLC explores exhaustively; a rule fires only for events "
+        "impossible in any behaviour satisfying the property, so ties and unspecified orders are never judged.",
+   technique="TLA+ monitor (step function) folded by TLC over recorded kernel traces; TLC model checking of the kernel model"),
+ "C06": dict(level="model_checking", design="DESIGN.md §4 C06",
+   text="The property is a monitor in spec/KMon.tla, a total TLA+ step function over the kernel event vocabulary: waiters are granted in (priority, waiting time) order, also after priority changes. "
+        "TLC folds the monitor over traces recorded from the real library by harness/kernel_replay running seeded programs of the relevant "
+        "profiles (processes with scripts over hold/timers/waits/interrupt/stop/exit/restart/resources/pools/buffers/queues/conditions/recording, "
+        "same-instant ties by construction: integer durations 0..3, priorities 0..2) and, where spec/Kernel.tla covers the calls, over TLC-exported programs.",
+   note="Trusted: TLC, hooks H1-H3 and the harness's logging. Programs are random beyond the bounds TLC explores exhaustively; a rule fires only for events "
+        "impossible in any behaviour satisfying the property, so ties and unspecified orders are never judged.",
+   technique="TLA+ monitor (step function) folded by TLC over recorded kernel traces; TLC model checking of the kernel model"),
+ "C07": dict(level="model_checking", design="DESIGN.md §4 C07",
+   text="The property is a monitor in spec/KMon.tla, a total TLA+ step function over the kernel event vocabulary: pool unit conservation, exact acquire/rollback/preempt/release accounting, preemption only from lower priority with notification. "
+        "TLC folds the monitor over traces recorded from the real library by harness/kernel_replay running seeded programs of the relevant "
+        "profiles (processes with scripts over hold/timers/waits/interrupt/stop/exit/restart/resources/pools/buffers/queues/conditions/recording, "
+        "same-instant ties by construction: integer durations 0..3, priorities 0..2) and, where spec/Kernel.tla covers the calls, over TLC-exported programs.",
+   note="Trusted: TLC, hooks H1-H3 and the harness's logging. Programs are random beyond the bounds TLC explores exhaustively; a rule fires only for events "
+        "impossible in any behaviour satisfying the property, so ties and unspecified orders are never judged.",
+   technique="TLA+ monitor (step function) folded by TLC over recorded kernel traces; TLC model checking of the kernel model"),
+ "C08": dict(level="model_checking", design="DESIGN.md §4 C08",
+   text="The property is a monitor in spec/KMon.tla, a total TLA+ step function over the kernel event vocabulary: no waiter stays blocked at the end of an instant or at quiescence while its guard's demand is true (lost wake-ups, lost grants). "
+        "TLC folds the monitor over traces recorded from the real library by harness/kernel_replay running seeded programs of the relevant "
+        "profiles (processes with scripts over hold/timers/waits/interrupt/stop/exit/restart/resources/pools/buffers/queues/conditions/recording, "
+        "same-instant ties by construction: integer durations 0..3, priorities 0..2) and, where spec/Kernel.tla covers the calls, over TLC-exported programs.",
+   note="Trusted: TLC, hooks H1-H3 and the harness's logging. Programs are random beyond the bounds TLC explores exhaustively; a rule fires only for events "
+        "impossible in any behaviour satisfying the property, so ties and unspecified orders are never judged.",
+   technique="TLA+ monitor (step function) folded by TLC over recorded kernel traces; TLC model checking of the kernel model"),
+ "C09": dict(level="model_checking", design="DESIGN.md §4 C09",
+   text="The property is a monitor in spec/KMon.tla, a total TLA+ step function over the kernel event vocabulary: ending a process (return, exit, stop by another, stop by itself): waiters told once with the right code, holdings freed, no pending events, exit value, clean restart. "
+        "TLC folds the monitor over traces recorded from the real library by harness/kernel_replay running seeded programs of the relevant "
+        "profiles (processes with scripts over hold/timers/waits/interrupt/stop/exit/restart/resources/pools/buffers/queues/conditions/recording, "
+        "same-instant ties by construction: integer durations 0..3, priorities 0..2) and, where spec/Kernel.tla covers the calls, over TLC-exported programs.",
+   note="Trusted: TLC, hooks H1-H3 and the harness's logging. Programs are random beyond the bounds TLC explores exhaustively; a rule fires only for events "
+        "impossible in any behaviour satisfying the property, so ties and unspecified orders are never judged.",
+   technique="TLA+ monitor (step function) folded by TLC over recorded kernel traces; TLC model checking of the kernel model"),
+ "C11": dict(level="model_checking", design="DESIGN.md §4 C11",
+   text="The property is a monitor in spec/KMon.tla, a total TLA+ step function over the kernel event vocabulary: buffer level conservation including the partial progress of blocked and interrupted calls. "
+        "TLC folds the monitor over traces recorded from the real library by harness/kernel_replay running seeded programs of the relevant "
+        "profiles (processes with scripts over hold/timers/waits/interrupt/stop/exit/restart/resources/pools/buffers/queues/conditions/recording, "
+        "same-instant ties by construction: integer durations 0..3, priorities 0..2) and, where spec/Kernel.tla covers the calls, over TLC-exported programs.",
+   note="Trusted: TLC, hooks H1-H3 and the harness's logging. Programs are random beyond the bounds TLC explores exhaustively; a rule fires only for events "
+        "impossible in any behaviour satisfying the property, so ties and unspecified orders are never judged.",
+   technique="TLA+ monitor (step function) folded by TLC over recorded kernel traces; TLC model checking of the kernel model"),
+ "C12": dict(level="model_checking", design="DESIGN.md §4 C12",
+   text="The property is a monitor in spec/KMon.tla, a total TLA+ step function over the kernel event vocabulary: object queue FIFO and priority queue order/cancel/reprioritise/position, exactly-once delivery, capacity. "
+        "TLC folds the monitor over traces recorded from the real library by harness/kernel_replay running seeded programs of the relevant "
+        "profiles (processes with scripts over hold/timers/waits/interrupt/stop/exit/restart/resources/pools/buffers/queues/conditions/recording, "
+        "same-instant ties by construction: integer durations 0..3, priorities 0..2) and, where spec/Kernel.tla covers the calls, over TLC-exported programs.",
+   note="Trusted: TLC, hooks H1-H3 and the harness's logging. Programs are random beyond the bounds TLC explores exhaustively; a rule fires only for events "
+        "impossible in any behaviour satisfying the property, so ties and unspecified orders are never judged.",
+   technique="TLA+ monitor (step function) folded by TLC over recorded kernel traces; TLC model checking of the kernel model"),
+ "C13": dict(level="model_checking", design="DESIGN.md §4 C13",
+   text="The property is a monitor in spec/KMon.tla, a total TLA+ step function over the kernel event vocabulary: a condition signal resumes exactly the waiters whose predicate is true; cancel/remove; forwarded signals. "
+        "TLC folds the monitor over traces recorded from the real library by harness/kernel_replay running seeded programs of the relevant "
+        "profiles (processes with scripts over hold/timers/waits/interrupt/stop/exit/restart/resources/pools/buffers/queues/conditions/recording, "
+        "same-instant ties by construction: integer durations 0..3, priorities 0..2) and, where spec/Kernel.tla covers the calls, over TLC-exported programs.",
+   note="Trusted: TLC, hooks H1-H3 and the harness's logging. Programs are random beyond the bounds TLC explores exhaustively; a rule fires only for events "
+        "impossible in any behaviour satisfying the property, so ties and unspecified orders are never judged.",
+   technique="TLA+ monitor (step function) folded by TLC over recorded kernel traces; TLC model checking of the kernel model"),
+ "C14": dict(level="model_checking", design="DESIGN.md §4 C14",
+   text="The property is a monitor in spec/KMon.tla, a total TLA+ step function over the kernel event vocabulary: recorded (value,time) histories define the true trajectory and the exact time average. "
+        "TLC folds the monitor over traces recorded from the real library by harness/kernel_replay running seeded programs of the relevant "
+        "profiles (processes with scripts over hold/timers/waits/interrupt/stop/exit/restart/resources/pools/buffers/queues/conditions/recording, "
+        "same-instant ties by construction: integer durations 0..3, priorities 0..2) and, where spec/Kernel.tla covers the calls, over TLC-exported programs.",
+   note="Trusted: TLC, hooks H1-H3 and the harness's logging. Programs are random beyond the bounds TLC explores exhaustively; a rule fires only for events "
+        "impossible in any behaviour satisfying the property, so ties and unspecified orders are never judged.",
+   technique="TLA+ monitor (step function) folded by TLC over recorded kernel traces; TLC model checking of the kernel model"),
 }
 NA = {}
 
